@@ -16,6 +16,7 @@ ap.add_argument("--patch")
 ap.add_argument("--checks", required=True)
 ap.add_argument("--tier", default="quick")
 ap.add_argument("--seed", default="1")
+ap.add_argument("--demo", help="demonstration program: must fail on the changed tree and pass on the unchanged one")
 ap.add_argument("--suite", action="store_true", help="also build the scratch tree with cmake and run the repository's gtest suite")
 a = ap.parse_args()
 wt = "/tmp/cal_%s" % a.name
@@ -33,7 +34,22 @@ try:
         r = subprocess.run(["git", "-C", wt, "apply", os.path.abspath(a.patch)], capture_output=True, text=True)
         if r.returncode:
             print("PATCH FAILED", r.stderr[-300:]); sys.exit(3)
+    if a.demo:
+        flags = "-pthread" if "thread" in open(a.demo).read() else ""
+        for label, tree in (("changed", wt), ("unchanged", "/repo")):
+            exe = "/tmp/demo_%s_%s" % (a.name, label)
+            r = subprocess.run("g++ -std=c++11 -O1 -w %s -I %s/include %s %s/src/*.cpp -o %s" % (flags, tree, a.demo, tree, exe), shell=True, capture_output=True, text=True)
+            if r.returncode:
+                print("DEMO %s: does not compile: %s" % (label, r.stderr[-200:]))
+                continue
+            try:
+                r = subprocess.run([exe], capture_output=True, text=True, timeout=300, cwd=os.path.dirname(os.path.abspath(a.demo)))
+                print("DEMO %s tree: exit %d %s" % (label, r.returncode, (r.stdout.strip().split("\n") or [""])[-1][:120]))
+            except subprocess.TimeoutExpired:
+                print("DEMO %s tree: timeout" % label)
+            os.unlink(exe)
     if a.suite:
+        subprocess.run("cp -r /repo/external/gtest/. %s/external/gtest/" % wt, shell=True)
         bd = wt + "/_b"
         r = subprocess.run("cmake -G Ninja -S %s -B %s -DBUILD_TESTS=ON -DCMAKE_BUILD_TYPE=RelWithDebInfo -DCMAKE_CXX_FLAGS=-w >/dev/null 2>&1 && cmake --build %s >/dev/null 2>&1 && cd %s && ./runUnitTests 2>&1 | tail -3" % (wt, bd, bd, bd), shell=True, capture_output=True, text=True)
         print("SUITE:", " ".join(r.stdout.split("\n")[-3:]).strip()[:200])
